@@ -399,6 +399,11 @@ func corpus() []*History {
 		mk(false, "inst 0 - exp", "inst 1 - imp:0", "pass 0 own 1 tab:1", "pass 1 own 0 tab:2", "close 0", "closecm 0", "drop 0", "gc",
 			"call 1 tab:1 3", "call 1 tab:2 3", "close 1", "call 1 tab:1 3")
 		mk(false, "inst 0 - exp", "inst 1 - imp:0", "pass 1 own 0 tab:2", "close 1", "closecm 1", "drop 1", "gc", "call 0 tab:2 3")
+		// safe: a closed importer stays pinned by the table also when another module imports the table afterwards
+		mk(false, "inst 0 - exp", "inst 1 - imp:0", "pass 1 own 0 tab:2", "call 0 tab:2 3", "close 1", "closecm 1", "drop 1", "inst 2 - imp:0", "gc",
+			"call 0 tab:2 3", "call 2 tab:2 3")
+		mk(false, "inst 0 - exp", "inst 1 - imp:0", "inst 2 - imp:0", "pass 1 own 2 tab:1", "pass 2 own 1 tab:3", "close 1", "closecm 1", "drop 1", "close 2", "closecm 2", "drop 2",
+			"inst 3 - imp:0", "gc", "call 0 tab:1 3", "call 0 tab:3 3", "call 3 tab:1 3")
 		// safe: imported function keeps the exporter alive
 		mk(false, "inst 0 - priv", "inst 1 0 priv", "close 0", "closecm 0", "drop 0", "gc", "call 1 imp 4",
 			"pass 1 imp 1 tab:0", "call 1 tab:0 4", "pass 1 imp 1 glob", "pass 1 glob 1 tab:3", "gc", "call 1 tab:3 9")
@@ -565,6 +570,28 @@ func (g *gen) history(engine string) *History {
 			default:
 				add("gc")
 			}
+		}
+		// a late importer: a module instantiated AFTER others were closed, importing a table that is still alive
+		// (the keep-alive list of the table must keep pinning closed instances whose references it still holds)
+		var openExps []int
+		for _, e := range exps {
+			closed := false
+			for _, o := range h.Ops {
+				if o == fmt.Sprintf("close %d", e) || o == "closert" || o == "droprt" {
+					closed = true
+				}
+			}
+			if !closed {
+				openExps = append(openExps, e)
+			}
+		}
+		if !rtClosed && len(openExps) > 0 && len(insts) < 4 && r.Intn(100) < 60 {
+			e := g.pick(openExps)
+			ni := len(insts)
+			add(fmt.Sprintf("inst %d - imp:%d", ni, e))
+			idxOf[ni] = len(insts)
+			insts = append(insts, &ist{imp: -1, tab: fmt.Sprintf("imp:%d", e), owner: e})
+			live = append(live, ni)
 		}
 		add("gc")
 		// calls through everything the host can still reach
